@@ -563,3 +563,104 @@ pub fn sample_one<S: Strategy>(s: &S, runner: &mut TestRunner) -> S::Value {
     use proptest::strategy::ValueTree;
     s.new_tree(runner).expect("strategy").current()
 }
+
+// ---------------------------------------------------------------------------------------
+// batch engines (engine B): the property code produces failures itself; this turns them into
+// replay files / KNOWN-FINDING lines / evidence exactly like `run_search`.
+
+pub struct BatchFailure {
+    pub sig: String,
+    pub msg: String,
+    pub case: Value,
+    pub description: Value,
+}
+
+#[allow(clippy::too_many_arguments)]
+pub fn report_batch(
+    id: &str,
+    tier: Tier,
+    seed: u64,
+    mut stats: Stats,
+    failures: Vec<BatchFailure>,
+    rule: String,
+    assumptions: Vec<String>,
+    extra: Value,
+    t0: Instant,
+    mut lines: Vec<String>,
+    mut exit: i32,
+) -> RunResult {
+    let known_file = load_known();
+    let root = verif_root();
+    let mut nviol = 0;
+    let mut seen: Vec<String> = vec![];
+    for f in &failures {
+        if let Some(_k) = known_file.findings.iter().find(|k| k.property == id && k.signature == f.sig) {
+            *stats.known_hits.entry(f.sig.clone()).or_default() += 1;
+            continue;
+        }
+        if seen.contains(&f.sig) {
+            continue;
+        }
+        seen.push(f.sig.clone());
+        nviol += 1;
+        let rf = ReplayFile {
+            property: id.to_string(),
+            signature: f.sig.clone(),
+            message: f.msg.clone(),
+            seed,
+            tier: tier.name().into(),
+            description: f.description.clone(),
+            case: f.case.clone(),
+        };
+        let dir = root.join("replays");
+        let _ = std::fs::create_dir_all(&dir);
+        let path = dir.join(format!("{}-{:016x}.json", id, hash_str(&format!("{}{}", f.sig, rf.case))));
+        std::fs::write(&path, serde_json::to_string_pretty(&rf).unwrap()).expect("write replay");
+        eprintln!("VIOLATION {} sig={} msg={}", id, f.sig, f.msg);
+        lines.push(format!("VIOLATION property={} replay={}", id, path.display()));
+        exit = 1;
+    }
+    for k in known_file.findings.iter().filter(|k| k.property == id) {
+        if stats.known_hits.get(&k.signature).copied().unwrap_or(0) > 0 {
+            lines.push(format!("KNOWN-FINDING: property={} {}", id, k.what));
+        }
+    }
+    let wall = t0.elapsed().as_secs_f64();
+    let mut coverage = json!({
+        "evaluations": stats.evaluations,
+        "sub_evaluations": stats.sub_evaluations,
+        "distinct_nontrivial": stats.nontrivial.len(),
+        "rule": rule,
+        "samples": stats.samples,
+        "classes": stats.classes,
+        "discards": stats.discards,
+        "excluded_by_construction": stats.excluded,
+        "known_finding_hits": stats.known_hits,
+        "exhaustive": false,
+    });
+    if let (Value::Object(c), Value::Object(e)) = (&mut coverage, extra) {
+        for (k, v) in e {
+            c.insert(k, v);
+        }
+    }
+    let ev = json!({
+        "property_id": id,
+        "tier": tier.name(),
+        "seed": seed,
+        "level": "exploration",
+        "coverage": coverage,
+        "assumptions": assumptions,
+        "wall_s": (wall * 100.0).round() / 100.0,
+        "violations": nviol,
+    });
+    let evdir = root.join("evidence");
+    let _ = std::fs::create_dir_all(&evdir);
+    std::fs::write(evdir.join(format!("{id}.json")), serde_json::to_string_pretty(&ev).unwrap()).expect("write evidence");
+    RunResult { exit, lines }
+}
+
+/// deterministic proptest runner for batch generation
+pub fn batch_runner(seed: u64, id: &str, batch: usize) -> TestRunner {
+    let cfg = Config { failure_persistence: None, ..Config::default() };
+    TestRunner::new_with_rng(cfg, TestRng::from_seed(RngAlgorithm::ChaCha, &worker_seed(seed, batch, id)))
+}
